@@ -88,7 +88,7 @@ class _TimePeriodField(metaclass=_TimePeriodFieldMeta):
         # It's possible that there are better ways to do this, but this at least feels simple.
         if value >= 0:
             if value >= self.__units_per_day:
-                long_days = _towards_zero_division(value, self.__units_per_day)
+                long_days = value // self.__units_per_day
                 # If this overflows, that's fine. (An OverflowException is a reasonable outcome.)
                 # TODO: checked
                 days = long_days
@@ -104,7 +104,7 @@ class _TimePeriodField(metaclass=_TimePeriodFieldMeta):
             return LocalTime._ctor(nanoseconds=new_nanos), extra_days
         else:
             if value <= -self.__units_per_day:
-                long_days = _towards_zero_division(value, self.__units_per_day)
+                long_days = -(-value // self.__units_per_day)
                 # If this overflows, that's fine. (An OverflowException is a reasonable outcome.)
                 # TODO: checked
                 days = long_days
